@@ -99,8 +99,22 @@ MEASURES = {
 _SERIAL = {}
 
 
+#  objects of Network SUBCLASSES (the distributed branches are inherited; the
+#  slaves resolve the job by name): "cls:<class driver>" builds the first
+#  model of that driver of mc/drivers.py
+SUBCLASS_DRIVERS = ("GeoNetwork", "ClimateNetwork", "RecurrenceNetwork",
+                    "VisibilityGraph", "InterSystemRecurrenceNetwork",
+                    "InteractingNetworks", "ResNetwork")
+
+
 def _net(gname, silence):
     from pyunicorn.core import Network
+    if gname.startswith("cls:"):
+        from .. import drivers as D
+        drv = D.DRIVERS[gname[4:]]
+        net = drv.construct(drv.models("quick")[0])
+        net.silence_level = silence
+        return net
     A, w = graph(gname)
     return Network(adjacency=A, node_weights=w, silence_level=silence)
 
@@ -423,6 +437,12 @@ def run(ctx):
         for m in ("newman", "nsi_newman+ends", "arenas"):
             for S in ((2, 3, 5, 9) if thorough else (2, 4)):
                 cases.append([g, m, S, 2, 0])
+    # objects of subclasses, default schedule, 1 and 2 slaves
+    for dn in SUBCLASS_DRIVERS:
+        graphs.append("cls:" + dn)
+        for m in ("newman", "nsi_newman", "arenas"):
+            for S in (2, 3):
+                cases.append(["cls:" + dn, m, S, 2, 0])
     ctx.explore("dist", cases, chunk=1, desc="master loop over the "
                 "in-process MPI world, schedules explored")
     cc = []
